@@ -122,13 +122,31 @@ func Harness_C14_q_accessory_ids() {
 		n = 4
 	}
 	cont := NewContainer()
-	var accepted []*Accessory
+	var accepted, all []*Accessory
 	for i := 0; i < n; i++ {
 		id := verif.U64("aid" + string(rune('0'+i)))
 		a := New(Info{Name: "n", ID: id}, TypeOther)
+		all = append(all, a)
 		err := cont.AddAccessory(a)
 		if err == nil {
 			accepted = append(accepted, a)
+		}
+	}
+	// optionally one of them is removed - a member, or one that was rejected and never became a
+	// member (an application rolling back) - and one more accessory is added afterwards
+	if verif.Choice("remove-then-add", 2) == 1 {
+		r := all[verif.Choice("removed", len(all))]
+		cont.RemoveAccessory(r)
+		kept := accepted[:0:0]
+		for _, a := range accepted {
+			if a != r {
+				kept = append(kept, a)
+			}
+		}
+		accepted = kept
+		late := New(Info{Name: "n", ID: verif.U64("aid-late")}, TypeOther)
+		if cont.AddAccessory(late) == nil {
+			accepted = append(accepted, late)
 		}
 	}
 	verif.Assert(len(cont.Accessories) == len(accepted), "container-holds-exactly-the-accepted")
